@@ -1199,9 +1199,23 @@ class Model:
         for node in nodes.values():
             node._unset_model()
 
+        self._detach_model_inputs(nodes)
         nodes = {nm: nd for nm, nd in nodes.items() if not nm.startswith("_model")}
 
         return nodes, _vars
+
+    @staticmethod
+    def _detach_model_inputs(nodes: dict[str, Node]) -> None:
+        """
+        Removes the seed inputs that :meth:`.GraphBuilder.build_model` attached to the
+        nodes that need a seed. They point at the model's own ``_model_*_seed`` nodes,
+        which do not leave the model, and a new model adds its own.
+        """
+        for node in nodes.values():
+            seed = node.kwinputs.get("seed")
+            if seed is not None and seed.name.startswith("_model_"):
+                kwinputs = {kw: inp for kw, inp in node.kwinputs.items() if kw != "seed"}
+                node.set_inputs(*node.inputs, **kwinputs)
 
     @property
     def log_lik(self) -> Array:
@@ -1255,6 +1269,7 @@ class Model:
         for node in nodes.values():
             node._unset_model()
 
+        self._detach_model_inputs(nodes)
         nodes = {nm: nd for nm, nd in nodes.items() if not nm.startswith("_model")}
 
         # clear the model
